@@ -103,6 +103,22 @@ Theorem C18_set_depth_spec : forall (V : Type) old (d : Z) (s : list (list (opti
 Proof. exact set_depth_spec_L1. Qed.
 Print Assumptions C18_set_depth_spec.
 
+(* a column created with defaultnan=False fills new cells with 0: the depth setter with a padding value *)
+Theorem C18_set_depth_pad_spec : forall (V : Type) (pad : option V) old (d : Z) (s : list (list (option V))),
+  (0 <= d)%Z -> (forall r, In r s -> length r = old) ->
+  set_depth1_pad pad old d s = Some (set_depth_pad pad (Z.to_nat d) s).
+Proof. exact set_depth_pad_spec_L1. Qed.
+Print Assumptions C18_set_depth_pad_spec.
+
+Theorem C18_set_depth_pad_nan : forall (V : Type) d (s : list (list (option V))), set_depth_pad None d s = set_depth d s.
+Proof. exact set_depth_pad_nan. Qed.
+Print Assumptions C18_set_depth_pad_nan.
+
+Theorem C18_set_depth_pad_grow : forall (V : Type) (pad : option V) (r : list (option V)) k,
+  set_depth_row_pad pad (length r + k) r = r ++ repeat pad k.
+Proof. exact set_depth_row_pad_grow. Qed.
+Print Assumptions C18_set_depth_pad_grow.
+
 (* ---- downsample ---- *)
 Theorem C18_downsample_spec : forall (by_ : Z) (s : list qrow) d,
   (0 < by_)%Z -> s <> [] -> (forall r, In r s -> length r = d) ->
